@@ -2,6 +2,8 @@ import ClusterVerif.Lemmas.C14
 import ClusterVerif.Lemmas.C14Crash
 import ClusterVerif.Model.C14Source
 import ClusterVerif.Gen.C14
+import ClusterVerif.Model.C14Start
+import ClusterVerif.Spec.C14Start
 
 /-!
 # C14 — state export/import, snapshots, backups and the peerstore file round-trip
@@ -823,6 +825,93 @@ theorem rotClauses_iff {β : Type} [DecidableEq β] (keep m : Nat) (s : β) (b a
       by_cases hk : i < keep
       · exact Or.inl hk
       · exact Or.inr (h4 i hi (by omega))
+
+/-! ### Round 8: the Raft data folder as (snapshot, log); `state import` onto it and the STARTED peer
+
+`Model/C14Start.lean`. What a started peer serves is the newest snapshot PLUS the log entries behind it, so
+"import replaces whatever was there" has to get rid of the log too. -/
+section StartTheorems
+open CV.C14.Start
+
+/-- `CleanupRaft` always leaves no data folder (a folder without snapshot is removed with its log) -/
+theorem cleanup_leaves_nothing (d : Start.Data) : (Start.cleanup d).1 = none := by
+  cases d with
+  | none => rfl
+  | some r => obtain ⟨snap, log⟩ := r; cases snap <;> rfl
+
+/-- `import_then_start_id`, for EVERY prior content of the data folder (no folder, a log only, a snapshot, a snapshot
+    and a log behind it — any indices, any entries) and every imported pinset: the peer started after
+    `raftStateManager.ImportState` serves exactly the imported pinset, the offline read gives the same, and no log
+    entry is left in the folder. -/
+theorem import_then_start_id (d : Start.Data) (s : List Nat) :
+    Start.start (Start.importState d s).1 = s ∧ Start.offline (Start.importState d s).1 = s ∧
+    (Start.importState d s).1 = some { snap := some (2, s), log := [] } := by
+  have h := cleanup_leaves_nothing d
+  simp only [Start.importState, h, Start.snapshotSave, Start.start, Start.startR, Start.replay, Start.offline, and_self]
+
+example : Start.start (Start.importState (Start.build [.pin 3, .restart, .pin 4, .unpin 3] false) [5]).1 = [5] := by decide
+
+/-- whole histories: whatever a single-voter peer did before (any sequence of pins, unpins and graceful restarts),
+    killed or shut down, the peer started after an import serves the import -/
+theorem import_after_any_history (ops : List Start.Op) (graceful : Bool) (s : List Nat) :
+    Start.start (Start.importState (Start.build ops graceful) s).1 = s := (import_then_start_id _ s).1
+
+/-- a folder that held a snapshot is the backup (old.0) afterwards — whole, log included: both the offline read
+    and a peer started on the backup give what they gave before the import -/
+theorem import_backs_up (d : Start.Data) (s : List Nat) (h : Start.hasSnap d = true) : (Start.importState d s).2 = d := by
+  cases d with
+  | none => simp [Start.hasSnap] at h
+  | some r =>
+    obtain ⟨snap, log⟩ := r
+    cases snap with
+    | none => simp [Start.hasSnap] at h
+    | some p => rfl
+
+example : Start.hasSnap (Start.build [.pin 3] true) = true := by decide
+
+/-- The alternative "leave the backup to SnapshotSave" (import without `Clean`): the OFFLINE read cannot tell it
+    from the real thing — for every folder it shows exactly the imported pinset … -/
+theorem importNoClean_offline_id (d : Start.Data) (s : List Nat) : Start.offline (Start.importNoClean d s).1 = s := by
+  cases d with
+  | none => rfl
+  | some r => obtain ⟨snap, log⟩ := r; cases snap <;> rfl
+
+/-- … and so does the started peer whenever the folder held a snapshot or did not exist … -/
+theorem importNoClean_start_ok (d : Start.Data) (s : List Nat) (h : Start.hasSnap d = true ∨ d = none) :
+    Start.start (Start.importNoClean d s).1 = s := by
+  cases d with
+  | none => rfl
+  | some r =>
+    obtain ⟨snap, log⟩ := r
+    cases snap with
+    | none => simp [Start.hasSnap] at h
+    | some p => rfl
+
+/-- … but on a folder with a LOG and NO snapshot (a peer killed before its first snapshot) the started peer replays
+    every entry behind index 2 on top of the import -/
+theorem importNoClean_start_log_only (log : List (Nat × Start.Entry)) (s : List Nat) :
+    Start.start (Start.importNoClean (some { snap := none, log := log }) s).1 = Start.replay s 2 log := rfl
+
+def importNoClean_start_id : Prop := ∀ (d : Start.Data) (s : List Nat), Start.start (Start.importNoClean d s).1 = s
+
+/-- refuted: one committed pin, killed, import of the EMPTY pinset: the started peer serves the old pin -/
+theorem importNoClean_start_id_fails : ¬ importNoClean_start_id := by
+  intro h
+  have := h (Start.build [.pin 3] false) []
+  revert this
+  decide
+
+/-- Prop reading of the Bool clause -/
+theorem sameSet_iff (a b : List Nat) : sameSet a b = true ↔ a.foldr insS [] = b.foldr insS [] := by
+  simp [sameSet]
+
+/-- "a killed peer starts with everything it committed": `start (build ops false)` is the pinset the operations
+    give. Validated by the correspondence run only (`restart` arms of the start suite); not proved. -/
+def restart_keeps_state_full : Prop :=
+  ∀ ops : List Start.Op, Start.start (Start.build ops false) =
+    (ops.foldl (fun st o => match o with | .pin c => Start.ins c st | .unpin c => Start.del c st | .restart => st) [])
+
+end StartTheorems
 
 /-! ### The anchored functions still read as the model was transcribed (regenerated from /repo on every run) -/
 
